@@ -18,9 +18,10 @@ class Disk(object):
         self.faults.setdefault(name, []).append(fault)
 
     def _next_fault(self, name, stage):
-        fl = self.faults.get(name)
-        if fl and fl[0].get("stage") == stage:
-            return fl.pop(0)
+        for key in (name, "*"):
+            fl = self.faults.get(key)
+            if fl and fl[0].get("stage") == stage:
+                return fl.pop(0)
         return None
 
 
@@ -65,6 +66,9 @@ class _WriteHandle(io.StringIO):
         self.close()
         return False
 
+    def fileno(self):
+        return -1
+
 
 def sim_open(name, mode="r", *a, **kw):
     s = Sim.current
@@ -95,3 +99,44 @@ def sim_open(name, mode="r", *a, **kw):
         raise SimCrash()
     wf = disk._next_fault(name, "write")
     return _WriteHandle(disk, name, wf)
+
+
+class SimOS(object):
+    """`os` as seen by asl_workflow_engine.store: file-name operations go to the simulated disk."""
+
+    def __getattr__(self, name):
+        import os
+        return getattr(os, name)
+
+    def _disk(self):
+        s = Sim.current
+        n = s.nodes.get(s.current_node)
+        if n is not None and n.dead:
+            raise SimCrash()
+        return s.disk
+
+    def replace(self, src, dst):
+        disk = self._disk()
+        f = disk._next_fault(dst, "replace")
+        if f and f.get("kind") == "crash_before_replace":
+            disk.stats["crash_before_replace"] = disk.stats.get("crash_before_replace", 0) + 1
+            if disk.crash_hook:
+                disk.crash_hook("before_replace")
+            raise SimCrash()
+        if src not in disk.files:
+            raise FileNotFoundError(2, "No such file or directory: %r" % src)
+        disk.files[dst] = disk.files.pop(src)
+        disk.stats["replace"] = disk.stats.get("replace", 0) + 1
+
+    rename = replace
+
+    def remove(self, name):
+        disk = self._disk()
+        if name not in disk.files:
+            raise FileNotFoundError(2, "No such file or directory: %r" % name)
+        del disk.files[name]
+
+    unlink = remove
+
+    def fsync(self, fd):
+        pass
